@@ -12,7 +12,7 @@ from .. import runtime as rt
 from .. import kernel as sk
 
 RTYPES = ["file", "folder", "semlock"]
-NAMES = ["a", "b", "x:y", "C:\\\\tmp\\\\d", "/dev/shm/n 1"]
+NAMES = ["a", "b", "x:y", "C:\\\\tmp\\\\d", "/dev/shm/n 1", "a/f", "ab"]
 
 
 def gen_line(rng):
